@@ -258,7 +258,10 @@ def rank_condition(spec, variant=None):
     """Condition number of the predetermined rows of the stable deflating subspace (own ordered QZ)."""
     A, B, tokens = pencil(spec, variant)
     # -B v = lambda A v ; stable = inside the unit circle
-    _, _, _, _, _, Z = sla.ordqz(-B, A, sort="iuc", output="real")
+    try:
+        _, _, _, _, _, Z = sla.ordqz(-B, A, sort="iuc", output="real")
+    except Exception:  # noqa: BLE001 - LAPACK refuses to reorder a very ill-conditioned pencil: not a model to judge
+        return float("inf")
     nf = num_forwards(spec)
     ns = len(tokens)
     nstable = ns - nf
